@@ -695,6 +695,22 @@ loop:
 					continue
 				}
 
+				if fr.Type() == FramePriority {
+					// PRIORITY may be sent for a stream in any state, idle and
+					// closed included, and changes none of them (RFC 7540 5.1,
+					// 6.3). Priorities are not implemented, so there is nothing
+					// to remember: giving the frame a stream table entry and a
+					// request context of its own let a peer allocate without
+					// limit, and left two entries for one id once the HEADERS
+					// arrived.
+					if fr.Body().(*Priority).Stream() == fr.Stream() {
+						sc.writeGoAway(fr.Stream(), ProtocolError, "stream that depends on itself")
+						break loop
+					}
+
+					continue
+				}
+
 				if _, ok := closedStrms[fr.Stream()]; ok {
 					// A WINDOW_UPDATE, RST_STREAM or PRIORITY frame may
 					// legitimately arrive shortly after a stream is closed,
